@@ -32,8 +32,13 @@ contract(T4 + 'IsoDepInitiator.exchange', 'C12', dict(self=ISO(), command=Bytes(
                                                 'response': Bytes(0, None, mutable=True),
                                                 'self.clf.sent': Fixed([]), 'self.clf.outcomes': Fixed([]),
                                                 'self.clf.answers': Fixed([])}),
-                (EQ, 'For', 1): LoopSpec(invariant=['self.pni == 0 or self.pni == 1', 'len(data) <= self.miu + 1'],
-                                         havoc={'data': Bytes(1, None, mutable=True),
+                # what goes out in the (re)transmission loop is the current I-block - PCB plus exactly the
+                # chunk command[offset:offset+miu] - or an R(NAK); never a truncated or shifted chunk
+                (EQ, 'For', 1): LoopSpec(invariant=['self.pni == 0 or self.pni == 1', 'len(data) <= self.miu + 1',
+                                                    'data == pfb + command[offset:offset + self.miu] or '
+                                                    'data == bytearray([0xB2 | self.pni])'],
+                                         havoc={'data': '(bytearray(pfb + command[offset:offset + self.miu]), '
+                                                        'bytearray([0xB2 | self.pni]))[nondet_int(0, 1)]',
                                                 'self.clf.sent': Fixed([]), 'self.clf.outcomes': Fixed([]),
                                                 'self.clf.answers': Fixed([])}),
                 (EQ, 'For', 2): LoopSpec(invariant=['self.pni == 0 or self.pni == 1', 'len(data) <= self.miu + 1'],
